@@ -260,6 +260,14 @@ def d_table_key_given_and_struct():
                            ("tuple", "row_c", ("dict", [("a", ("uint", 16))]))]))], None
 
 
+def d_nrc_const_wider_than_its_value():
+    # a negative response whose NRC-CONST (16 bit) reaches beyond the value parameter (8 bit) it overlaps with: the
+    # byte behind the value belongs to the message although no value is written there
+    return B.response([B.coded_const("sid", 0x7F, 0), B.coded_const("rq_sid", 0x22, 1),
+                       B.nrc_const("nrc", [0x2100, 0x7800], 2, 16), B.value_param("code", B.dop("u8c", 8), 2)],
+                      "nr_wide", "NEGATIVE"), [("code", ("pickint", [0x21, 0x78]))], None
+
+
 def d_table_fixed_row():
     t = _the_table()
     k = B.table_key("tk", t, fixed_row=[r for r in t.table_rows_raw if r.short_name == "row_b"][0])
@@ -478,6 +486,7 @@ DESCRIPTIONS = {
     "dynamic-length-field-last": d_dynamic_length_field_last,
     "lowhigh-const+u8": d_lowhigh_const_then_u8, "end-of-pdu-field-min-max": d_end_of_pdu_field_min_max,
     "table-key-given+struct": d_table_key_given_and_struct, "dtc-linked": d_dtc_linked,
+    "nrc-const-wider-than-value": d_nrc_const_wider_than_its_value,
 }
 
 # descriptions in which every bit of the PDU is determined by the decoded values: no reserved bits, no padding behind
@@ -585,6 +594,8 @@ def _wire(desc, values, pdu):
         if row == "row_a":
             return bytes([0x22, 1, content["a"]])
         return H.And(len(pdu) == 4, pdu[0] == 0x22, pdu[1] == 3, 256 * pdu[2] + pdu[3] == content["a"])
+    if desc == "nrc-const-wider-than-value":
+        return bytes([0x7F, 0x22, v["code"], 0])
     if desc == "dtc-linked":
         return bytes([0x59, v["code"] // 256, v["code"] % 256])
     if desc == "lowhigh-const+u8":
@@ -650,7 +661,7 @@ def _fam(tier, seed):
 
 
 @harness(props=["C01", "C02", "C03", "C04", "C05", "C08"], strength="B", family=_fam,
-         bound="56 concrete request/response descriptions built from the real parameter / DOP / diag-coded-type classes "
+         bound="57 concrete request/response descriptions built from the real parameter / DOP / diag-coded-type classes "
          "(constants, defaults, reserved bits, low-high and non-aligned values, linear compu method, request echoes, "
          "MIN-MAX-LENGTH types with the three terminations, PHYS-CONST, SYSTEM, structures with and without BYTE-SIZE, end-of-PDU, static and dynamic-length fields, LEADING-LENGTH types, DTC DOP, multiplexer, table key/struct, PARAM-LENGTH-INFO types with their length key); per description every value is "
          "symbolic",
@@ -912,7 +923,7 @@ def _two_length_service():
          family=lambda t, s: [{"desc": k, "phase": ph} for k in DESCRIPTIONS for ph in ("encode", "decode")
                               if not (ph == "decode" and k in DECODE_SKIP)] +
          [{"desc": "nrc-const-service", "phase": "decode"}, {"desc": "two-length-service", "phase": "decode"}],
-         bound="the 56 concrete descriptions plus one service with two NRC-CONST negative responses; values and "
+         bound="the 57 concrete descriptions plus one service with two NRC-CONST negative responses; values and "
          "messages symbolic",
          functions=FUNCTIONS + [DiagService.decode_message], covers=["strict-success"],
          assumes=["A-bitstruct", "A-lib"], limits={"max_paths": 40000, "task_timeout": 1500, "sym_for_unroll": 12}, use_contracts=["bcd"],
